@@ -18,9 +18,9 @@ import (
 	"fmt"
 	"testing"
 
+	"github.com/keep-network/keep-core/internal/testutils"
 	kit "github.com/keep-network/keep-core/internal/verifkit"
 	vsup "github.com/keep-network/keep-core/internal/verifsup"
-	"github.com/keep-network/keep-core/internal/testutils"
 	"github.com/keep-network/keep-core/pkg/chain"
 	"github.com/keep-network/keep-core/pkg/net"
 	"github.com/keep-network/keep-core/pkg/protocol/group"
@@ -65,7 +65,7 @@ func (c *c13Channel) Name() string { return "verif" }
 func (c *c13Channel) Send(context.Context, net.TaggedMarshaler, ...net.RetransmissionStrategy) error {
 	return nil
 }
-func (c *c13Channel) Recv(context.Context, func(net.Message))    {}
+func (c *c13Channel) Recv(context.Context, func(net.Message))     {}
 func (c *c13Channel) SetUnmarshaler(func() net.TaggedUnmarshaler) {}
 func (c *c13Channel) SetFilter(net.BroadcastChannelFilter) error  { return nil }
 
@@ -127,6 +127,11 @@ func TestVerif_C13_Tecdsa(t *testing.T) {
 			accepted := c.Get("accepted").List()
 			concrete := make([]vsup.Concrete, len(msgs))
 			key := "tecdsa:" + kit.Hash([]interface{}{c.Get("nonop").X, c.Get("msgs").X})
+			nontrivial := ""
+			if len(msgs) > 0 {
+				nontrivial = key
+			}
+			rep.Eval(nontrivial, map[string]interface{}{"case": c.X})
 			typ := (&resultSignatureMessage{}).Type()
 			for k, m := range msgs {
 				cm, err := ring.Realize(m, ci+3*k, mine, other)
@@ -173,11 +178,6 @@ func TestVerif_C13_Tecdsa(t *testing.T) {
 			if !vsup.CompareMap(rep, "tecdsa", "handed-to-submitter", c, verdict, c13ToMap(submitter.calls[0]), concrete, member.selfDKGResultSignature) {
 				return
 			}
-			nontrivial := ""
-			if len(msgs) > 0 {
-				nontrivial = key
-			}
-			rep.Eval(nontrivial, map[string]interface{}{"case": c.X, "supporters": len(verdict)})
 			rep.Count("tecdsa.cases", 1)
 			rep.Count(fmt.Sprintf("tecdsa.supporters.%d", len(verdict)), 1)
 		}()
